@@ -69,7 +69,7 @@ pub async fn conc_history(ctx: &mut Ctx, root: &std::path::Path, tag: &str) {
                 if snapshot.is_empty() { tokio::time::sleep(Duration::from_micros(200)).await; continue; }
                 let (id, pid, stream, version) = snapshot[lrng.below(snapshot.len() as u64) as usize].clone();
                 let b = pid % nb;
-                match lrng.below(3) {
+                match lrng.below(5) {
                     0 => {
                         match db.read_event(pid, id).await {
                             Ok(Some(e)) if e.event_id == id => {}
@@ -85,6 +85,32 @@ pub async fn conc_history(ctx: &mut Ctx, root: &std::path::Path, tag: &str) {
                                 if v.version < prev { violations.lock().unwrap().push((k15.clone(), format!("get_stream_version({stream}) went backwards for one reader: {prev} then {}", v.version))); }
                             }
                             other => violations.lock().unwrap().push((k15.clone(), format!("get_stream_version({stream}) of a stream with acknowledged events returned {:?}", other.map(|x| x.map(|v| v.version)).map_err(|e| e.to_string())))),
+                        }
+                    }
+                    3 | 4 => {
+                        // tail scans: forward from the newest acknowledged version, reverse from the end
+                        let newest = snapshot.iter().filter(|x| x.1 % nb == b && x.2 == stream).map(|x| x.3).max().unwrap_or(version);
+                        let fwd = lrng.below(2) == 0;
+                        let (from, dir) = if fwd { (newest, IterDirection::Forward) } else { (u64::MAX, IterDirection::Reverse) };
+                        match db.read_stream(pid, StreamId::new(stream.clone()).unwrap(), from, dir).await {
+                            Ok(mut it) => {
+                                let mut evs: Vec<(String, u64)> = vec![]; let mut err = None; let mut groups = 0;
+                                loop { match it.next_batch(16).await { Ok(Some(cs)) => for c in cs { groups += 1; for e in c { evs.push((e.stream_id.to_string(), e.stream_version)); } }, Ok(None) => break, Err(e) => { err = Some(e.to_string()); break; } }
+                                    if !fwd && groups >= 3 { break; } }
+                                let what = if fwd { format!("forward scan of {stream} from {newest}") } else { format!("reverse scan of {stream} from the end") };
+                                if let Some(e) = err { violations.lock().unwrap().push((k15.clone(), format!("{what} failed during concurrent appends: {e}"))); }
+                                else {
+                                    if let Some(x) = evs.iter().find(|x| x.0 != stream) { violations.lock().unwrap().push((k15.clone(), format!("{what} returned an event of stream {} (version {})", x.0, x.1))); }
+                                    else if fwd {
+                                        if evs.iter().enumerate().any(|(i, x)| x.1 != newest + i as u64) { violations.lock().unwrap().push((k15.clone(), format!("{what}: versions {:?} are not {newest}, {}, ...", evs.iter().map(|x| x.1).take(12).collect::<Vec<_>>(), newest + 1))); }
+                                        if evs.is_empty() { violations.lock().unwrap().push((k15.clone(), format!("{what} returned nothing although version {newest} was acknowledged before it started"))); }
+                                    } else {
+                                        let maxv = evs.iter().map(|x| x.1).max();
+                                        if maxv.map(|m| m < newest).unwrap_or(true) { violations.lock().unwrap().push((k15.clone(), format!("{what} returned newest version {maxv:?} although version {newest} was acknowledged before it started"))); }
+                                    }
+                                }
+                            }
+                            Err(e) => violations.lock().unwrap().push((k15.clone(), format!("read_stream({stream}) failed: {e}"))),
                         }
                     }
                     _ => {
@@ -269,6 +295,71 @@ pub async fn burst_history(ctx: &mut Ctx, root: &std::path::Path, tag: &str) {
     let _ = std::fs::remove_dir_all(&w.dir);
 }
 
+/// when set, every scan sleeps between loading the live segment id and reading the live index
+static TAIL_RACE: AtomicBool = AtomicBool::new(false);
+
+/// C15 / C03 under a rollover racing the START of a scan: one writer appends 16 KiB events to one
+/// stream (a rollover every ~7 appends), readers keep scanning the tail of that stream (reverse from
+/// the end, forward from the newest acknowledged version) while the pause hook holds every scan
+/// between its segment-id load and its live-index read.  Oracle only.
+pub async fn tail_race_history(ctx: &mut Ctx, root: &std::path::Path, tag: &str) {
+    let cfg = Cfg { nb: 1, segsize: 128 * 1024, compression: false, sync_ms: 2 };
+    let mut w = World::new(ctx, root, cfg, tag);
+    w.hist.push(format!("st open nb=1 seg={} c=0  # tail-race scenario: 1 writer (16 KiB events on one stream), 3 tail scanners, scans held at iter.segment_id_loaded", w.cfg.segsize));
+    let db: Database = match open_db(&w.dir, &w.cfg) { Ok(db) => db, Err(e) => { ctx.oracle_fail(&format!("C15:{}", w.key), &format!("open failed: {e}"), &w.hist); return; } };
+    let key15 = format!("C15:{} tail-race", w.key);
+    let pkey = w.pkeys[0]; let pid = w.pid_of(&pkey);
+    let newest = Arc::new(AtomicU64::new(u64::MAX)); // newest acknowledged version (MAX = none yet)
+    let stop = Arc::new(AtomicBool::new(false));
+    let violations: Arc<Mutex<Vec<String>>> = Arc::new(Mutex::new(vec![]));
+    let scans = Arc::new(AtomicU64::new(0));
+    TAIL_RACE.store(true, Ordering::SeqCst);
+    let mut readers = vec![];
+    for r in 0..5u64 {
+        let (db, newest, stop, violations, scans) = (db.clone(), newest.clone(), stop.clone(), violations.clone(), scans.clone());
+        readers.push(tokio::spawn(async move {
+            let mut i = r;
+            while !stop.load(Ordering::Relaxed) {
+                let n = newest.load(Ordering::SeqCst);
+                if n == u64::MAX { tokio::time::sleep(Duration::from_millis(1)).await; continue; }
+                i += 1; let fwd = i % 2 == 0;
+                let (from, dir) = if fwd { (n, IterDirection::Forward) } else { (u64::MAX, IterDirection::Reverse) };
+                let what = if fwd { format!("forward scan from {n}") } else { "reverse scan from the end".to_string() };
+                match db.read_stream(pid, StreamId::new("tail").unwrap(), from, dir).await {
+                    Ok(mut it) => {
+                        let mut evs: Vec<(String, u64)> = vec![]; let mut err = None; let mut groups = 0;
+                        loop { match it.next_batch(8).await { Ok(Some(cs)) => for c in cs { groups += 1; for e in c { evs.push((e.stream_id.to_string(), e.stream_version)); } }, Ok(None) => break, Err(e) => { err = Some(e.to_string()); break; } }
+                            if !fwd && groups >= 2 { break; } }
+                        if let Some(e) = err { violations.lock().unwrap().push(format!("{what} failed while the segment rolled over: {e}")); }
+                        else if let Some(x) = evs.iter().find(|x| x.0 != "tail") { violations.lock().unwrap().push(format!("{what} returned an event of stream {}", x.0)); }
+                        else if fwd && (evs.is_empty() || evs.iter().enumerate().any(|(k, x)| x.1 != n + k as u64)) { violations.lock().unwrap().push(format!("{what}: versions {:?} are not {n}, {}, ... (version {n} was acknowledged before the scan started)", evs.iter().map(|x| x.1).take(8).collect::<Vec<_>>(), n + 1)); }
+                        else if !fwd && evs.iter().map(|x| x.1).max().map(|m| m < n).unwrap_or(true) { violations.lock().unwrap().push(format!("{what} returned newest version {:?} (versions {:?}) although version {n} was acknowledged before it started", evs.iter().map(|x| x.1).max(), evs.iter().map(|x| x.1).take(8).collect::<Vec<_>>())); }
+                    }
+                    Err(e) => violations.lock().unwrap().push(format!("read_stream failed: {e}")),
+                }
+                scans.fetch_add(1, Ordering::Relaxed);
+            }
+        }));
+    }
+    let n_appends = 160u64;
+    for v in 0..n_appends {
+        let ev = NewEvent { event_id: sierradb::id::uuid_v7_with_partition_hash(sierradb::id::uuid_to_partition_hash(pkey)), stream_id: StreamId::new("tail").unwrap(),
+            stream_version: if v == 0 { ExpectedVersion::Empty } else { ExpectedVersion::Exact(v - 1) }, event_name: "t".into(), timestamp: 7, metadata: vec![], payload: vec![(v % 251) as u8; 16 * 1024] };
+        match tokio::time::timeout(APPEND_TIMEOUT, db.append_events(Transaction::new(pkey, pid, smallvec::smallvec![ev]).unwrap())).await {
+            Ok(Ok(_)) => newest.store(v, Ordering::SeqCst),
+            other => { ctx.oracle_fail(&format!("C20:{} tail-race", w.key), &format!("append {v} of the tail-race writer did not succeed: {:?}", other.map(|r| r.map(|_| ()).map_err(|e| e.to_string()))), &w.hist); break; }
+        }
+    }
+    stop.store(true, Ordering::Relaxed);
+    for r in readers { let _ = r.await; }
+    TAIL_RACE.store(false, Ordering::SeqCst);
+    ctx.stat("tail_race_scenarios"); ctx.stat_add("tail_race_scans", scans.load(Ordering::Relaxed));
+    let v = violations.lock().unwrap().clone();
+    if let Some(first) = v.first() { ctx.oracle_fail(&key15, &format!("{first} ({} such scans of {})", v.len(), scans.load(Ordering::Relaxed)), &w.hist); }
+    db.shutdown().await;
+    let _ = std::fs::remove_dir_all(&w.dir);
+}
+
 pub fn run(ctx: &mut Ctx) {
     // widen the windows: sleep at the pause points of the writer
     let sleeper_seed = AtomicU64::new(ctx.rng.next());
@@ -277,6 +368,8 @@ pub fn run(ctx: &mut Ctx) {
         match point {
             "rollover.indexes_swapped" => std::thread::sleep(Duration::from_millis(3 + (x >> 60))),
             "append.before_wait" => if (x >> 61) == 0 { std::thread::sleep(Duration::from_millis(12)) },
+            // a scan that has loaded the live segment id but not yet read the live index
+            "iter.segment_id_loaded" => if TAIL_RACE.load(Ordering::Relaxed) { std::thread::sleep(Duration::from_millis(12)) } else if (x >> 61) == 0 { std::thread::sleep(Duration::from_millis(9)) },
             _ => {}
         }
     }));
@@ -285,5 +378,6 @@ pub fn run(ctx: &mut Ctx) {
     let n = if ctx.thorough() { 250 } else { 25 };
     for i in 0..n { rt.block_on(conc_history(ctx, root.path(), &format!("{i}"))); }
     for i in 0..(if ctx.thorough() { 12 } else { 2 }) { rt.block_on(burst_history(ctx, root.path(), &format!("b{i}"))); }
+    for i in 0..(if ctx.thorough() { 10 } else { 2 }) { rt.block_on(tail_race_history(ctx, root.path(), &format!("t{i}"))); }
     *sierradb::writer_thread_pool::verif::PAUSE_HOOK.write().unwrap() = None;
 }
